@@ -54,6 +54,7 @@ def c05(ctx):
     purity.r_state_closure(ctx, SW + 'encode', SW + 'decode')
     coder_common(ctx)
     walk.r_vtuse(ctx)
+    misc2.r_conv(ctx)           # the decoded value is rendered big-endian at exactly the requested width
 
 
 def c06(ctx):
@@ -68,6 +69,7 @@ def c06(ctx):
     exc.r_typed_index(ctx, SW + 'set_vt')
     exc.r_typed_dispatch(ctx, fqs, floor=2)
     misc2.r_conv(ctx)           # number_to_bit returns exactly bit_length items on every arm
+    misc.r_vtform(ctx)          # 'the check matches' is the documented check of the strand
 
 
 def c02(ctx):
@@ -98,6 +100,7 @@ def c03(ctx):
     graph2.r_arb(ctx)
     graph2.r_cascade(ctx)
     graph2.r_useless_kept(ctx)
+    graph2.r_verts(ctx)         # the returned vertex description lists the vertices that have arcs
     purity.r_pure(ctx, [SW + 'connect_coding_graph', GR + 'remove_useless', GR + 'latter_map_to_accessor'],
                   only_params=('vertices', 'latter_map'), floor=3)
 
@@ -124,6 +127,7 @@ def c13(ctx):
     graph2.r_arc(ctx, ctx.reachable(), floor=8, derived=False)
     live.r_alpha(ctx, ctx.reachable(), floor=10)
     misc2.r_conv(ctx)
+    graph.r_mask(ctx)           # mask entry i is the verdict on the k-mer whose base-4 value is i
 
 
 def c04(ctx):
@@ -201,6 +205,7 @@ def c14(ctx):
     graph.r_shift(ctx, ('obtain_latters',))
     graph2.r_legal(ctx)
     graph2.r_bfs(ctx)
+    graph2.r_verts(ctx)
     misc2.r_repr(ctx)
     exc.r_exc(ctx, GR + 'adjacency_matrix_to_accessor', {'ValueError'}, floor=1)
 
@@ -226,7 +231,7 @@ def c19(ctx):
     misc2.r_pair(ctx)
     graph.r_shift(ctx, ('obtain_latters',), with_latter=True)
     graph.r_kplumb(ctx, [SW + 'remove_nasty_arc'], floor=3)
-    live.r_live(ctx, [GR + 'obtain_vertices'], floor=1)
+    live.r_live(ctx, [GR + 'obtain_vertices', SW + 'remove_nasty_arc'], floor=1)
     purity.r_pure(ctx, [GR + 'calculate_intersection_score', GR + 'obtain_leaf_vertices'], floor=2)
 
 
